@@ -37,7 +37,24 @@ def tsvd_options(rng, k):
     return opts[int(rng.integers(0, len(opts)))]
 
 
+def requested_truncations_kept(reg):
+    """tsvd_ / tsvd_unshifted_ / tsvd_shifted_ must be fitted copies of the truncations the estimator was given"""
+    import joblib
+    for given, fitted in (('tsvd', 'tsvd_'), ('tsvd_unshifted', 'tsvd_unshifted_'), ('tsvd_shifted', 'tsvd_shifted_')):
+        if hasattr(reg, given) and hasattr(reg, fitted):
+            g = getattr(reg, given)
+            want = (g if g is not None else pykoop.Tsvd()).get_params()
+            got = getattr(reg, fitted).get_params()
+            if joblib.hash(want) != joblib.hash(got):
+                return dict(what=f'{fitted} was not fitted with the truncation requested through `{given}`: the retained rank it '
+                                 'reports is not the one of the requested rule', requested=str(want), used=str(got))
+    return None
+
+
 def check_fit(reg, X, ns, nu, name):
+    info = requested_truncations_kept(reg)
+    if info:
+        return info
     coef = reg.coef_
     A = coef.T[:, :ns]
     L = np.asarray(reg.eigenvalues_); V = np.asarray(reg.modes_)
@@ -97,6 +114,9 @@ def run(res, tier):
             cfgs.append(('Dmdc', mode, lambda m=mode: pykoop.Dmdc(mode_type=m, tsvd_unshifted=tsvd_options(rng, k),
                                                                   tsvd_shifted=tsvd_options(rng, ns))))
             cfgs.append(('Dmdc', mode, lambda m=mode: pykoop.Dmdc(mode_type=m)))
+            if ns >= 2:
+                cfgs.append(('Dmdc', mode, lambda m=mode: pykoop.Dmdc(mode_type=m, tsvd_unshifted=pykoop.Tsvd('rank', k),
+                                                                      tsvd_shifted=pykoop.Tsvd('rank', max(1, ns - 1)))))
             if nu == 0:
                 cfgs.append(('Dmd', mode, lambda m=mode: pykoop.Dmd(mode_type=m, tsvd=tsvd_options(rng, ns))))
                 cfgs.append(('Dmd', mode, lambda m=mode: pykoop.Dmd(mode_type=m)))
